@@ -192,7 +192,14 @@ namespace sse
         auto add = [&](int a, int b, int c)
         {
             int v[3] = { a, b, c };
-            const int* pm = perm[g.vorder % 6];
+            // vorder 0..5: the same permutation for every triangle (0-2 keep the winding, 3-5
+            // reverse it); 6..17: mixed winding - the permutation changes from triangle to
+            // triangle and its parity alternates (6..11: every other triangle reversed,
+            // 12..17: pairs of triangles reversed), so adjacent triangles list their common
+            // edge in the same direction
+            const int t = static_cast<int>(m.triangles.size());
+            const int pi = g.vorder < 6 ? g.vorder : (g.vorder + 3 * ((t >> (g.vorder / 6 - 1)) & 1) + t) % 6;
+            const int* pm = perm[pi % 6];
             m.triangles.push_back({ v[pm[0]], v[pm[1]], v[pm[2]] });
         };
         for (int cr = 0; cr < 2; ++cr)
